@@ -35,14 +35,25 @@ class World(C09_bounded.World):
     def __init__(self, m):
         super().__init__(m)
         self.tset = 0
-        self.mode_on = True  # content of mode.txt: whether ./sub1.py creates ./sub2.py
+        self.mode_on = True  # content of mode.txt: whether ./sub1.py creates ./sub2.py / whether U announces its input
+        self.alt = False  # the second family of plans: an optional producer needed only through an announced input
 
     def script_for(self, label):
+        if label == "U":
+            return self.u_script
         if label == "./sub1.py":
             return self.sub1_script
         if label == "./sub2.py":
             return self.sub2_script
         return super().script_for(label)
+
+    def u_script(self, step):
+        """U reads mode.txt and, when it says so, announces the output of an optional step as an input at run time."""
+        if not self.mode_on:
+            return None
+        path = "q.txt" if self.version % 2 else "d/o.txt"
+        una, unf, _ = self.wf.amend_step(step, inp_paths=[path], ran_concurrently=lambda a, b: False)
+        return "defer" if (una or unf) else None
 
     def sub1_script(self, step):
         if self.mode_on:
@@ -57,6 +68,15 @@ class World(C09_bounded.World):
         N = m["enums"].Need
         v = self.version % 7
         wf.declare_static_files(plan, ["s.txt"])
+        if self.alt:
+            # A (optional) is needed only while U, when it runs, announces A's output (even versions) or the output of
+            # the optional step C that consumes it (odd versions)
+            wf.declare_static_files(plan, ["mode.txt"])
+            wf.define_step(plan, "A", inp_paths=["s.txt"], out_paths=["d/o.txt"], need=N.OPTIONAL)
+            if self.version % 2:
+                wf.define_step(plan, "C", inp_paths=["d/o.txt"], out_paths=["q.txt"], need=N.OPTIONAL)
+            wf.define_step(plan, "U", inp_paths=["mode.txt"], out_paths=["u.txt"], need=N.DEFAULT)
+            return
         if v == 0:
             # three levels: plan -> ./sub1.py -> ./sub2.py -> B, which consumes the output of the optional step A
             wf.declare_static_files(plan, ["mode.txt"])
@@ -164,6 +184,9 @@ class World(C09_bounded.World):
 
     async def op(self, name):
         m = self.m
+        if name == "alt":
+            self.alt = True  # (first operation of a history of the second family, before the plan runs)
+            return
         if name == "mode":
             # mode.txt is edited: the step that reads it runs again and creates (or no longer creates) ./sub2.py
             self.mode_on = not self.mode_on
@@ -252,7 +275,7 @@ def _chunk(histories):
 @bounded("need_is_the_fixed_point", props=["C11"],
          bound="exhaustive: every sequence of 6 operations (complete the build, run one popped job, next plan version of 7, "
                "restart with the next of 4 target sets, touch the source, toggle the mode file that decides whether a "
-               "sub-plan creates its sub-plan) of length <= 4 (quick) / <= 6 (thorough) after boot; after every "
+               "sub-plan creates its sub-plan or a step announces an optional step's output as its input) of length <= 4 (quick) / <= 6 (thorough) after boot, for two families of plans (the seven versions, and two versions in which an optional step is needed only through an input announced at run time); after every "
                "dispatch decision the cached need of every attached step against the fixed point computed from scratch")
 def need_is_the_fixed_point(tier, seed):
     import concurrent.futures
@@ -260,6 +283,7 @@ def need_is_the_fixed_point(tier, seed):
 
     depth = 4 if tier == "quick" else 6
     histories = [("run",) + ops for length in range(0, depth + 1) for ops in itertools.product(OPS, repeat=length)]
+    histories += [("alt", "run") + ops for length in range(0, depth + 1) for ops in itertools.product(OPS, repeat=length)]
     size = max(1, len(histories) // 128)
     chunks = [histories[i:i + size] for i in range(0, len(histories), size)]
     failures = []
